@@ -4,6 +4,7 @@ import (
 	"bytes"
 	"encoding/json"
 	"fmt"
+	"math"
 	"os"
 	"reflect"
 	"sort"
@@ -52,6 +53,20 @@ type Cfg struct {
 	Map bool `json:"map,omitempty"`
 }
 
+func (st Step) unencodable() bool {
+	if st.V == "~nan" || st.V == "~nanmodel" {
+		return st.K == "add" || st.K == "create"
+	}
+	if st.K == "change" {
+		for _, v := range st.Vals {
+			if v == "~nan" {
+				return true
+			}
+		}
+	}
+	return false
+}
+
 // Step is one history step.
 type Step struct {
 	K    string            `json:"k"` // change add remove create delete value get reopen
@@ -61,6 +76,9 @@ type Step struct {
 	Idx  int               `json:"idx,omitempty"`
 	// Around: the callback also calls Value() on the same resource instance before and after the event.
 	Around bool `json:"around,omitempty"`
+	// Raw: the data of a create event on a typed model is the decoded JSON (a map, with a
+	// property the configured type does not declare), not a value of the configured type.
+	Raw bool `json:"raw,omitempty"`
 }
 
 // Case is a history.
@@ -89,7 +107,15 @@ type fixture struct {
 	quiet   bool                     // listeners record nothing (concurrent runs)
 }
 
+// "~nan" is the number NaN, "~nanmodel" a model holding it: values JSON cannot encode, so an
+// event carrying one cannot be applied.
 func decode(text string) interface{} {
+	switch text {
+	case "~nan":
+		return math.NaN()
+	case "~nanmodel":
+		return map[string]interface{}{"a": "x", "n": math.NaN()}
+	}
 	var v interface{}
 	_ = json.Unmarshal([]byte(text), &v)
 	return v
@@ -290,6 +316,13 @@ func run(c Case) (msg string, nontrivial bool) {
 	servedWant := func(rid string) (string, bool) {
 		v, ok := effective(rid)
 		if _, stored := model[rid]; ok && stored && c.Cfg.Map && strings.HasPrefix(rid, "svc.m.") {
+			if c.Cfg.Typed {
+				// the Map callback is given the stored value decoded into the configured type
+				var t T
+				_ = json.Unmarshal([]byte(v), &t)
+				b, _ := json.Marshal(t)
+				v = string(b)
+			}
 			return `{"wrapped":` + v + `}`, true
 		}
 		return v, ok
@@ -381,7 +414,7 @@ func run(c Case) (msg string, nontrivial bool) {
 			case "remove":
 				r.RemoveEvent(st.Idx)
 			case "create":
-				if c.Cfg.Typed && strings.HasPrefix(st.RID, "svc.m.") {
+				if c.Cfg.Typed && strings.HasPrefix(st.RID, "svc.m.") && !st.Raw {
 					var t T
 					_ = json.Unmarshal([]byte(st.V), &t)
 					r.CreateEvent(t)
@@ -431,6 +464,12 @@ func run(c Case) (msg string, nontrivial bool) {
 				return fmt.Sprintf("%s: expected exactly one %s event, published %v", where, name, pubs)
 			}
 			return ""
+		}
+		if st.unencodable() {
+			if m := reject("a value that JSON cannot encode"); m != "" {
+				return m, nontrivial
+			}
+			continue
 		}
 		switch st.K {
 		case "value":
@@ -572,7 +611,7 @@ func run(c Case) (msg string, nontrivial bool) {
 				return msg, nontrivial
 			}
 			v := st.V
-			if c.Cfg.Typed && isModel {
+			if c.Cfg.Typed && isModel && !st.Raw {
 				var t T
 				_ = json.Unmarshal([]byte(st.V), &t)
 				b, _ := json.Marshal(t)
@@ -674,7 +713,9 @@ func genCase() *rapid.Generator[Case] {
 						key = "a"
 					}
 					switch {
-					case rapid.IntRange(0, 4).Draw(t, "del") == 0 && !c.Cfg.Typed:
+					case rapid.IntRange(0, 19).Draw(t, "nan") == 0 && !c.Cfg.Typed:
+						st.Vals[key] = "~nan"
+					case rapid.IntRange(0, 4).Draw(t, "del") == 0 && (!c.Cfg.Typed || (key == "a" && c.Cfg.Indexes == 0 && !c.Cfg.Map)):
 						st.Vals[key] = "~delete"
 					case !c.Cfg.Typed && rapid.IntRange(0, 5).Draw(t, "null") == 0:
 						st.Vals[key] = "null" // a property stored as JSON null is a present property
@@ -696,7 +737,7 @@ func genCase() *rapid.Generator[Case] {
 					}
 				}
 			case "add":
-				st.V = rapid.SampledFrom([]string{`"x"`, `1`, `{"rid":"svc.m.1"}`, `null`, `"d1"`}).Draw(t, "v")
+				st.V = rapid.SampledFrom([]string{`"x"`, `1`, `{"rid":"svc.m.1"}`, `null`, `"d1"`, `"x"`, `1`, `"d1"`, "~nan"}).Draw(t, "v")
 				st.Idx = rapid.SampledFrom([]int{0, 0, 1, 2, 3, 9, -1}).Draw(t, "idx")
 			case "remove":
 				st.Idx = rapid.SampledFrom([]int{0, 0, 1, 2, 9, -1}).Draw(t, "idx")
@@ -706,6 +747,13 @@ func genCase() *rapid.Generator[Case] {
 					if rapid.IntRange(0, 2).Draw(t, "witho") == 0 {
 						// an optional property that other values of the same handler lack
 						st.V = fmt.Sprintf(`{"a":%s,"n":%s,"o":"opt"}`, rapid.SampledFrom(strs).Draw(t, "a"), rapid.SampledFrom(nums).Draw(t, "n"))
+					}
+					if c.Cfg.Typed && rapid.IntRange(0, 3).Draw(t, "raw") == 0 {
+						st.Raw = true
+						st.V = fmt.Sprintf(`{"a":%s,"n":%s,"x":"extra"}`, rapid.SampledFrom(strs).Draw(t, "a"), rapid.SampledFrom(nums).Draw(t, "n"))
+					}
+					if !c.Cfg.Typed && rapid.IntRange(0, 9).Draw(t, "nanmodel") == 0 {
+						st.V = "~nanmodel"
 					}
 					if !c.Cfg.Typed && rapid.IntRange(0, 3).Draw(t, "withnull") == 0 {
 						st.V = fmt.Sprintf(`{"a":%s,"b":null}`, rapid.SampledFrom(strs).Draw(t, "a"))
